@@ -91,6 +91,23 @@ CHECKS = {
              "groups are executed as subprocesses under all nine designator spellings and the program's sys.argv, exit "
              "status and output are compared with the spec and across modes.",
         note="-i / REPL start-up and hy2py/hyc command lines are not covered; -m needs the module on sys.path (cwd)."),
+    "C32": dict(
+        engine="mangle", level="model_checking", design="5.6, 6/C32",
+        technique="TLC checks the mangling laws on all abstract class strings of HyMangle; the exported table is "
+                  "concretised for every Unicode code point in positional contexts and compared with hy.mangle",
+        text="HyMangle transcribes the documented mangling steps over 12 character classes; TLC checks identifier-ness, "
+             "leading underscores, identity on normal identifiers, idempotence and per-part dots on every class string "
+             "(<= 4, thorough 5); every code point is classified with unicodedata and the real hy.mangle is compared "
+             "with the laws and with the spec's concretised token sequence in up to 8 contexts, plus random names.",
+        note="unicodedata / str.isidentifier are trusted; assumption counterexamples (A1-A4) are listed in evidence."),
+    "C33": dict(
+        engine="mangle", level="model_checking", design="5.6, 6/C33",
+        technique="TLC checks RoundTrip on HyMangle (and shows it needs assumption A3); exhaustive code-point sweep of "
+                  "unmangle(mangle(s)) on the real functions against the spec",
+        text="RoundTrip (mangle . unmangle . mangle = mangle) is a TLC-checked invariant of HyMangle for all class "
+             "strings without class Q, and TLC demonstrates it fails with Q (NFKC image is the delimiter); the real "
+             "functions are swept over every code point in up to 8 contexts and random names.",
+        note="Names whose body starts with hyx_ are excluded as the property states."),
     "C38": dict(
         engine="gensym", level="model_checking", design="5.8, 6/C38",
         technique="TLC exhaustive interleavings of the op program extracted from gensym's bytecode; "
